@@ -368,6 +368,8 @@ type vCase struct {
 	StartMs   int     `json:"start_ms"` // the connection arrives this long after the batch started
 	// the expiry sweeper removes the matched registration between the transport's lookup and the handler's MarkActive
 	SweepOnMatch bool `json:"sweep_on_match"`
+	// a legacy (client library v0) registration with this secret name is ingested right before the connection arrives
+	LegacyBefore string `json:"legacy_before"`
 }
 
 // vGuard runs f, a query of the registration table, and reports whether it came back: a table whose lock was leaked would
@@ -474,6 +476,17 @@ func (w *vWorld) runCase(cs *vCase) map[string]any {
 	d := newVDuplex(&net.TCPAddr{IP: srcIP, Port: 40077}, &net.TCPAddr{IP: dst, Port: 443}, cs.Cuts, time.Duration(cs.PaceMs)*time.Millisecond)
 	d.flipAt, d.flipEnd, d.truncAt = cs.Stream.Flip, cs.Stream.FlipEnd, cs.Stream.Trunc
 	d.sweepOnMatch = cs.SweepOnMatch
+	if cs.LegacyBefore != "" {
+		// the prober registers as an old client first: the station runs the legacy phantom selection for a secret the prober chose
+		sec := sha256.Sum256([]byte("c03-legacy-" + cs.LegacyBefore))
+		tt, gen, ver, tr, fl := pb.TransportType_Min, uint32(957), uint32(0), true, false
+		covert := w.echoAddr
+		c2s := &pb.ClientToStation{Transport: &tt, DecoyListGeneration: &gen, ClientLibVersion: &ver, V4Support: &tr, V6Support: &fl, CovertAddress: &covert}
+		src := pb.RegistrationSource_API
+		_, _ = w.rm.NewRegistrationC2SWrapper(&pb.C2SWrapper{SharedSecret: sec[:], RegistrationPayload: c2s, RegistrationSource: &src,
+			RegistrationAddress: net.ParseIP("198.51.100.9").To4()}, false)
+		d.log(vEvent{"a": "LegacyReg"})
+	}
 	st, peer := &vConn{d}, &vPeer{d: d}
 	var occT, occV int
 	rec := map[string]any{"case": cs.ID}
